@@ -53,20 +53,27 @@ def norm_1_2(ctx, rep):
         types, values = tc.registrations(ctx, c)
         rep.ob('NORM-2', ERRORS, name, 'registered for %s' % sorted(types), etype in types,
                'rule is not registered for error nodes')
-    v = prog.func(ERRORS, 'ErrorFinder.visit')
+    # the traversal ErrorFinder uses (its own visit, or the one it inherits)
+    v = prog.cls(ERRORS, 'ErrorFinder').lookup('visit')
+    if v is None:
+        raise AnalysisError('anchor vanished: the visit method of ErrorFinder')
     cfg = ctx.cfg(v)
-    withs = [n for n in cfg.nodes if n.kind == 'with' and 'self.visit_node(node)' in norm(n.ast.items[0].context_expr)]
-    ok = bool(withs) and all(only_via(cfg, w, lambda e: norm(e) == "node.type == 'error_node'", 'T') for w in withs)
-    sup = [n for n in cfg.nodes if n.kind == 'stmt' and 'super().visit(node)' in norm(n.ast)]
-    ok = ok and bool(sup) and all(only_via(cfg, s, lambda e: norm(e) == "node.type == 'error_node'", 'F') for s in sup)
-    # ... and on *every* path: no early exit of the error_node branch before the node rules ran
-    etests = [t for t in cfg.nodes if t.kind == 'test' and norm(t.ast) == "node.type == 'error_node'"]
+    node_param = v.params()[1]
+    withs = [n for n in cfg.nodes if n.kind == 'with' and 'self.visit_node(%s)' % node_param in norm(n.ast.items[0].context_expr)]
+    descents = [n for n in cfg.nodes if n.ast is not None and n.kind in ('stmt', 'test')
+                and any(isinstance(c, ast.Call) and norm(c.func) in ('super().visit', 'self.visit') for c in ast.walk(n.ast))]
+    etests = [t for t in cfg.nodes if t.kind == 'test' and norm(t.ast) == "%s.type == 'error_node'" % node_param]
     starts = [s2 for t in etests for s2, lab in t.succ if lab == 'T']
-    p_skip = find_path(cfg, starts, lambda n: n is cfg.exit, lambda n: n in withs)
-    ok = ok and bool(starts) and p_skip is None
-    rep.ob('NORM-2', ERRORS, v.qual, 'error node: visit_node(node) without descending', ok,
+    others = [s2 for t in etests for s2, lab in t.succ if lab == 'F']
+    # on the error_node side: the node rules run (inside / through a `with self.visit_node(node)`), nothing descends
+    p_descend = find_path(cfg, starts, lambda n: n in descents, lambda n: False) if starts else None
+    p_skip = find_path(cfg, starts, lambda n: n is cfg.exit, lambda n: n in withs) if starts else None
+    inside_with = bool(etests) and find_path(cfg, [cfg.entry], lambda n: n in etests, lambda n: n in withs) is None
+    reaches = bool(others) and find_path(cfg, others, lambda n: n in descents, lambda n: False) is not None
+    ok = bool(withs) and bool(starts) and p_descend is None and (p_skip is None or inside_with) and reaches
+    rep.ob('NORM-2', v.mod.rel, v.qual, 'error node: visit_node(node) without descending', ok,
            'error nodes are descended into or skipped without running the node rules%s'
-           % ((': ' + ' -> '.join(path_text(p_skip))) if p_skip else ''))
+           % ((': ' + ' -> '.join(path_text(p_descend or p_skip))) if (p_descend or (p_skip and not inside_with)) else ''))
     vn = prog.func(ERRORS, 'ErrorFinder.visit_node')
     first = vn.node.body[0] if vn.node.body else None
     rep.ob('NORM-2', ERRORS, vn.qual, 'self._check_type_rules(node) first', first is not None and 'self._check_type_rules(node)' in norm(first),
@@ -590,3 +597,54 @@ def norm_11(ctx, rep):
                'lines are displaced (a comment at the start of line two of a prefix that begins with a BOM gets column -1)' % bad,
                reason='carried state %s is re-assigned with the line' % sorted(carried))
     rep.minimum('NORM-11', 2)
+
+
+# ---------------------------------------------------------------------------------------------------------------
+# NORM-13  a prefix is split with a start position computed from its own leaf
+def norm_13(ctx, rep):
+    rep.rule('NORM-13', 'every call of split_prefix(leaf, start) computes start from that very leaf (its '
+                        'get_start_pos_of_prefix(), or an expression over the leaf alone): the positions of the prefix parts are '
+                        'offsets from it, and state kept elsewhere (a visitor\'s "previous leaf") differs from the tree around '
+                        'error nodes')
+    from ..model import reaching_values
+    PREFIX = 'parso/python/prefix.py'
+    target = ctx.prog.mod(PREFIX).funcs.get('split_prefix')
+    if target is None:
+        raise AnalysisError('anchor vanished: parso/python/prefix.py:split_prefix')
+    n_sites = 0
+    for f in sorted(ctx.prog.funcs.values(), key=lambda f: f.key):
+        for n in walk_own(f.node):
+            if not (isinstance(n, ast.Call) and isinstance(n.func, (ast.Name, ast.Attribute))):
+                continue
+            name = n.func.id if isinstance(n.func, ast.Name) else n.func.attr
+            if name != 'split_prefix':
+                continue
+            if isinstance(n.func, ast.Name) and ctx.prog.resolve_global(f.mod, name) is not target:
+                continue
+            args = list(n.args) + [k.value for k in n.keywords]
+            if len(args) < 2:
+                continue
+            n_sites += 1
+            leaf, start = args[0], args[1]
+            roots = {x.id for x in ast.walk(leaf) if isinstance(x, ast.Name)}
+
+            def derived(e, depth=0):
+                for x in ast.walk(e):
+                    if isinstance(x, ast.Name) and x.id not in roots:
+                        if depth > 3:
+                            return x.id
+                        vals = reaching_values(f.node, x)
+                        if not vals:
+                            return x.id
+                        for v in vals:
+                            bad = derived(v, depth + 1)
+                            if bad:
+                                return bad
+                return None
+            bad = derived(start)
+            rep.ob('NORM-13', f.mod.rel, f.qual, 'split_prefix(%s, %s)' % (norm(leaf), norm(start)), bad is None,
+                   'the start position handed to split_prefix depends on %s, not only on the leaf whose prefix is split' % bad,
+                   witness=norm(start))
+    if not n_sites:
+        raise AnalysisError('NORM-13: no call of split_prefix found')
+    rep.stat('norm13_split_prefix_calls', n_sites)
